@@ -5,8 +5,10 @@
  *   fmt <kind> <v> <s> [<max> [<strict>]]   -> r=<0|-1> b=<hex of the whole buffer, untouched bytes are '#'>
  *   atol <kind> <hex>                       -> v=<int64>
  *   paxrec <key hex> <value hex>            -> b=<hex of the pax record `len key=value\\n`>
- *   open f=<format> [bpb=<n>] [bilb=<n>] [filter=<name>] [opt=<options>]
+ *   open f=<format> [bpb=<n>] [bilb=<n>] [filter=<name>] [opt=<write options>] [ropt=<read options>]
  *   ent k=v ...                             -> h=<st> w=<n>:<st> f=<st> len=<archive bytes so far, bpb=0 only>
+ *        optional metadata: atime= ctime= btime= <sec>[.<nsec>], sparse=<off>:<len>,.. (the body is NUL
+ *        outside the listed regions), acl=<T>:<tag>:<permset>:<id>:<name hex>,..  xattr=<name hex>:<value hex>,..
  *   close | abort                           -> c=<st> len= hash= [hex=] fmt=<detected code> n=<entries read> end=<st>
  *   rd <i>                                  -> the i-th entry read back
  *   rewrite f=<format> [bpb= bilb=]         -> o=<st> h=<st,..> c=<st> len= hash= fmt= n= end=   (write the read-back entries again)
@@ -147,6 +149,7 @@ static unsigned body_byte(unsigned seed, size_t i) { return (seed * 31u + (unsig
 static void set_str(struct archive_entry *e, const char *hex, void (*set)(struct archive_entry *, const char *))
 {
 	if (hex == NULL || !strcmp(hex, "-")) return;
+	if (!strcmp(hex, "\"\"")) { set(e, ""); return; }     /* the empty string (as opposed to no string) */
 	size_t n; unsigned char *b = vh_unhex(hex, &n);
 	char *s = malloc(n + 1); memcpy(s, b, n); s[n] = 0; free(b);
 	set(e, s); free(s);
@@ -160,6 +163,100 @@ static unsigned ftype_of(const char *t)
 	if (!strcmp(t, "fifo")) return AE_IFIFO; if (!strcmp(t, "sock")) return AE_IFSOCK;
 	return 0;
 }
+
+/* time "<sec>[.<nsec>]" */
+static void set_time(struct archive_entry *e, const char *v, void (*set)(struct archive_entry *, time_t, long))
+{
+	if (v == NULL || !strcmp(v, "-")) return;
+	const char *d = strchr(v, '.');
+	set(e, (time_t)strtoll(v, NULL, 10), d ? atol(d + 1) : 0);
+}
+
+/* is byte i of the body inside one of the data regions "off:len,off:len,.." (no list: everything is data) */
+static int in_data(const char *sp, size_t i)
+{
+	if (sp == NULL || !strcmp(sp, "-")) return 1;
+	while (*sp) {
+		unsigned long long o = strtoull(sp, NULL, 10); const char *c = strchr(sp, ':');
+		unsigned long long l = c ? strtoull(c + 1, NULL, 10) : 0;
+		if (i >= o && i < o + l) return 1;
+		sp = strchr(sp, ','); if (!sp) break; sp++;
+	}
+	return 0;
+}
+
+static int acl_type_of(char c)
+{
+	switch (c) {
+	case 'a': return ARCHIVE_ENTRY_ACL_TYPE_ACCESS; case 'd': return ARCHIVE_ENTRY_ACL_TYPE_DEFAULT;
+	case 'A': return ARCHIVE_ENTRY_ACL_TYPE_ALLOW; case 'D': return ARCHIVE_ENTRY_ACL_TYPE_DENY;
+	case 'U': return ARCHIVE_ENTRY_ACL_TYPE_AUDIT; case 'L': return ARCHIVE_ENTRY_ACL_TYPE_ALARM;
+	}
+	return 0;
+}
+static char acl_type_ch(int t)
+{
+	switch (t) {
+	case ARCHIVE_ENTRY_ACL_TYPE_ACCESS: return 'a'; case ARCHIVE_ENTRY_ACL_TYPE_DEFAULT: return 'd';
+	case ARCHIVE_ENTRY_ACL_TYPE_ALLOW: return 'A'; case ARCHIVE_ENTRY_ACL_TYPE_DENY: return 'D';
+	case ARCHIVE_ENTRY_ACL_TYPE_AUDIT: return 'U'; case ARCHIVE_ENTRY_ACL_TYPE_ALARM: return 'L';
+	}
+	return '?';
+}
+static const struct { const char *n; int tag; } acl_tags[] = {
+	{ "u", ARCHIVE_ENTRY_ACL_USER }, { "uo", ARCHIVE_ENTRY_ACL_USER_OBJ }, { "g", ARCHIVE_ENTRY_ACL_GROUP },
+	{ "go", ARCHIVE_ENTRY_ACL_GROUP_OBJ }, { "m", ARCHIVE_ENTRY_ACL_MASK }, { "o", ARCHIVE_ENTRY_ACL_OTHER },
+	{ "e", ARCHIVE_ENTRY_ACL_EVERYONE }, { NULL, 0 } };
+
+static char *unhex_str(const char *hex, size_t *len)
+{
+	size_t n = 0; unsigned char *b = (hex && strcmp(hex, "-")) ? vh_unhex(hex, &n) : NULL;
+	char *s = malloc(n + 1); if (n) memcpy(s, b, n); s[n] = 0; free(b);
+	if (len) *len = n;
+	return s;
+}
+
+/* atime/ctime/btime, sparse map, ACL entries, extended attributes of an `ent` line */
+static void set_extras(struct archive_entry *e, char **w, int n)
+{
+	const char *s;
+	set_time(e, kv(w, n, "atime"), archive_entry_set_atime);
+	set_time(e, kv(w, n, "ctime"), archive_entry_set_ctime);
+	set_time(e, kv(w, n, "btime"), archive_entry_set_birthtime);
+	if ((s = kv(w, n, "sparse")) && strcmp(s, "-")) {
+		while (*s) {
+			long long o = strtoll(s, NULL, 10); const char *c = strchr(s, ':');
+			long long l = c ? strtoll(c + 1, NULL, 10) : 0;
+			archive_entry_sparse_add_entry(e, o, l);
+			s = strchr(s, ','); if (!s) break; s++;
+		}
+	}
+	if ((s = kv(w, n, "acl")) && strcmp(s, "-")) {
+		char *copy = strdup(s), *save = NULL;
+		for (char *it = strtok_r(copy, ",", &save); it; it = strtok_r(NULL, ",", &save)) {
+			char *f[5]; int k = 0; char *q = it;
+			while (k < 5) { f[k++] = q; q = strchr(q, ':'); if (!q) break; *q++ = 0; }
+			if (k < 5) continue;
+			int tag = 0; for (int j = 0; acl_tags[j].n; j++) if (!strcmp(acl_tags[j].n, f[1])) tag = acl_tags[j].tag;
+			char *name = unhex_str(f[4], NULL);
+			archive_entry_acl_add_entry(e, acl_type_of(f[0][0]), atoi(f[2]), tag, atoi(f[3]), *name ? name : NULL);
+			free(name);
+		}
+		free(copy);
+	}
+	if ((s = kv(w, n, "xattr")) && strcmp(s, "-")) {
+		char *copy = strdup(s), *save = NULL;
+		for (char *it = strtok_r(copy, ",", &save); it; it = strtok_r(NULL, ",", &save)) {
+			char *c = strchr(it, ':'); if (!c) continue; *c++ = 0;
+			size_t vl; char *name = unhex_str(it, NULL), *val = unhex_str(c, &vl);
+			archive_entry_xattr_add_entry(e, name, val, vl);
+			free(name); free(val);
+		}
+		free(copy);
+	}
+}
+
+static char w_ropt[256];
 
 static void op_open(char **w, int n)
 {
@@ -175,6 +272,8 @@ static void op_open(char **w, int n)
 	archive_write_set_bytes_per_block(wa, w_bpb);
 	if (bilb) archive_write_set_bytes_in_last_block(wa, atoi(bilb));
 	if (opt && strcmp(opt, "-")) { r2 = archive_write_set_options(wa, opt); if (r2 < r) r = r2; }
+	const char *ropt = kv(w, n, "ropt");
+	snprintf(w_ropt, sizeof w_ropt, "%s", ropt && strcmp(ropt, "-") ? ropt : "");
 	r2 = archive_write_open2(wa, NULL, NULL, sink_write, NULL, NULL);
 	if (r2 < r) r = r2;
 	printf("o=%s\n", vh_st(r));
@@ -205,6 +304,7 @@ static void op_ent(char **w, int n)
 	if ((s = kv(w, n, "dev"))) archive_entry_set_dev(e, (dev_t)strtoll(s, NULL, 10));
 	if ((s = kv(w, n, "ino"))) archive_entry_set_ino64(e, strtoll(s, NULL, 10));
 	if ((s = kv(w, n, "nlink"))) archive_entry_set_nlink(e, (unsigned)strtoul(s, NULL, 10));
+	set_extras(e, w, n);
 	int h = archive_write_header(wa, e);
 	printf("h=%s", vh_st(h));
 	/* body: seed:len written in the given chunk sizes (cyclic) */
@@ -214,7 +314,8 @@ static void op_ent(char **w, int n)
 		unsigned seed = (unsigned)strtoul(body, NULL, 10);
 		const char *c = strchr(body, ':'); size_t len = c ? (size_t)strtoull(c + 1, NULL, 10) : 0;
 		unsigned char *buf = malloc(len ? len : 1);
-		for (size_t i = 0; i < len; i++) buf[i] = (unsigned char)body_byte(seed, i);
+		const char *sp = kv(w, n, "sparse");
+		for (size_t i = 0; i < len; i++) buf[i] = (unsigned char)(in_data(sp, i) ? body_byte(seed, i) : 0);
 		size_t pos = 0; const char *cp = chunks;
 		while (pos < len) {
 			size_t k = len - pos;
@@ -248,11 +349,84 @@ static void hexs(char **o, const char *k, const char *s)
 	for (; *s; s++) *o += sprintf(*o, "%02x", (unsigned char)*s);
 }
 
+static int cmp_str(const void *a, const void *b) { return strcmp(*(char *const *)a, *(char *const *)b); }
+
+static void put_time(char **o, const char *k, int set, long long s, long ns)
+{
+	if (set) *o += sprintf(*o, " %s=%lld.%ld", k, s, ns);
+}
+
+/* metadata beyond the classic stat fields, printed only when the entry has it: times, sparse map, ACL
+ * entries (the three access entries that live in the mode are left out), extended attributes; lists sorted */
+static void put_extras(char **o, struct archive_entry *e)
+{
+	put_time(o, "atime", archive_entry_atime_is_set(e), (long long)archive_entry_atime(e), archive_entry_atime_nsec(e));
+	put_time(o, "ctime", archive_entry_ctime_is_set(e), (long long)archive_entry_ctime(e), archive_entry_ctime_nsec(e));
+	put_time(o, "btime", archive_entry_birthtime_is_set(e), (long long)archive_entry_birthtime(e), archive_entry_birthtime_nsec(e));
+	int ns = archive_entry_sparse_reset(e);
+	if (ns > 0) {
+		*o += sprintf(*o, " sparse=");
+		la_int64_t so, sl; int first = 1;
+		while (archive_entry_sparse_next(e, &so, &sl) == ARCHIVE_OK) { *o += sprintf(*o, "%s%lld:%lld", first ? "" : ",", (long long)so, (long long)sl); first = 0; }
+	}
+	int all = ARCHIVE_ENTRY_ACL_TYPE_ACCESS | ARCHIVE_ENTRY_ACL_TYPE_DEFAULT | ARCHIVE_ENTRY_ACL_TYPE_NFS4;
+	int na = archive_entry_acl_reset(e, all);
+	if (na > 0) {
+		char **items = calloc((size_t)na + 1, sizeof *items); int k = 0;
+		int type, perm, tag, id; const char *name;
+		while (k < na && archive_entry_acl_next(e, all, &type, &perm, &tag, &id, &name) == ARCHIVE_OK) {
+			if (type == ARCHIVE_ENTRY_ACL_TYPE_ACCESS && (tag == ARCHIVE_ENTRY_ACL_USER_OBJ || tag == ARCHIVE_ENTRY_ACL_GROUP_OBJ || tag == ARCHIVE_ENTRY_ACL_OTHER))
+				continue;
+			const char *tn = "?"; for (int j = 0; acl_tags[j].n; j++) if (acl_tags[j].tag == tag) tn = acl_tags[j].n;
+			size_t nl = name ? strlen(name) : 0;
+			char *it = malloc(64 + 2 * nl), *q = it;
+			q += sprintf(q, "%c:%s:%d:%d:", acl_type_ch(type), tn, perm, id);
+			if (nl == 0) q += sprintf(q, "-"); else for (size_t i = 0; i < nl; i++) q += sprintf(q, "%02x", (unsigned char)name[i]);
+			items[k++] = it;
+		}
+		qsort(items, (size_t)k, sizeof *items, cmp_str);
+		if (k) *o += sprintf(*o, " acl=");
+		for (int i = 0; i < k; i++) { *o += sprintf(*o, "%s%s", i ? "," : "", items[i]); free(items[i]); }
+		free(items);
+	}
+	int nx = archive_entry_xattr_reset(e);
+	if (nx > 0) {
+		char **items = calloc((size_t)nx, sizeof *items); int k = 0;
+		const char *name; const void *val; size_t vl;
+		while (k < nx && archive_entry_xattr_next(e, &name, &val, &vl) == ARCHIVE_OK) {
+			size_t nl = strlen(name);
+			char *it = malloc(2 * nl + 2 * vl + 8), *q = it;
+			for (size_t i = 0; i < nl; i++) q += sprintf(q, "%02x", (unsigned char)name[i]);
+			q += sprintf(q, ":");
+			if (vl == 0) q += sprintf(q, "-"); else for (size_t i = 0; i < vl; i++) q += sprintf(q, "%02x", ((const unsigned char *)val)[i]);
+			items[k++] = it;
+		}
+		qsort(items, (size_t)k, sizeof *items, cmp_str);
+		*o += sprintf(*o, " xattr=");
+		for (int i = 0; i < k; i++) { *o += sprintf(*o, "%s%s", i ? "," : "", items[i]); free(items[i]); }
+		free(items);
+	}
+}
+
+static size_t extras_room(struct archive_entry *e)
+{
+	size_t room = 512 + 48 * (size_t)(archive_entry_sparse_count(e) + 1);
+	int all = ARCHIVE_ENTRY_ACL_TYPE_ACCESS | ARCHIVE_ENTRY_ACL_TYPE_DEFAULT | ARCHIVE_ENTRY_ACL_TYPE_NFS4;
+	int type, perm, tag, id; const char *name;
+	if (archive_entry_acl_reset(e, all) > 0)
+		while (archive_entry_acl_next(e, all, &type, &perm, &tag, &id, &name) == ARCHIVE_OK) room += 80 + 2 * (name ? strlen(name) : 0);
+	const void *val; size_t vl;
+	if (archive_entry_xattr_reset(e) > 0)
+		while (archive_entry_xattr_next(e, &name, &val, &vl) == ARCHIVE_OK) room += 16 + 2 * strlen(name) + 2 * vl;
+	return room;
+}
+
 static void read_back(int partial, int *fmt, int *end, int keep, char **out, int *nout)
 {
 	struct archive *r = archive_read_new();
 	archive_read_support_filter_all(r); archive_read_support_format_all(r);
 	*nout = 0; *fmt = 0;
+	if (w_ropt[0] && archive_read_set_options(r, w_ropt) < ARCHIVE_WARN) { *end = ARCHIVE_FAILED; archive_read_free(r); return; }
 	int st = archive_read_open_memory(r, sink, sink_len);
 	if (st < ARCHIVE_WARN) { *end = st; archive_read_free(r); return; }
 	for (;;) {
@@ -262,7 +436,7 @@ static void read_back(int partial, int *fmt, int *end, int keep, char **out, int
 		if (st < ARCHIVE_WARN || st == ARCHIVE_EOF || st == ARCHIVE_RETRY) break;
 		if (*nout >= MAXENT) { st = -99; break; }
 		const char *p = archive_entry_pathname(e);
-		size_t cap = 2 * ((p ? strlen(p) : 0) + 4096 * 3) + 1024;
+		size_t cap = 2 * ((p ? strlen(p) : 0) + 4096 * 3) + 1024 + extras_room(e);
 		char *line = malloc(cap), *o = line;
 		o += sprintf(o, "st=%s", vh_st(st));
 		hexs(&o, "path", p);
@@ -276,7 +450,7 @@ static void read_back(int partial, int *fmt, int *end, int keep, char **out, int
 		o += sprintf(o, " rdev=%lld,%lld dev=%lld ino=%lld nlink=%u", (long long)archive_entry_rdevmajor(e), (long long)archive_entry_rdevminor(e),
 		    (long long)archive_entry_dev(e), (long long)archive_entry_ino64(e), archive_entry_nlink(e));
 		long long sz = archive_entry_size(e);
-		if (partial && sz > (1 << 20)) { o += sprintf(o, " body=skipped"); out[(*nout)++] = line; st = 0; break; }
+		if (partial && sz > (1 << 20)) { o += sprintf(o, " body=skipped"); put_extras(&o, e); out[(*nout)++] = line; st = 0; break; }
 		unsigned char *keepbuf = NULL; size_t keeplen = 0, keepcap = 0;
 		uint64_t hsh = 14695981039346656037ULL; long long tot = 0; int dst;
 		const void *b; size_t bl; la_int64_t off; long long expect = 0;
@@ -292,7 +466,16 @@ static void read_back(int partial, int *fmt, int *end, int keep, char **out, int
 			}
 			tot += (long long)bl; expect = off + (long long)bl;
 		}
+		/* a sparse file whose map ends before the file does: the hole at the end is implied by the
+		 * size (no reader call announces it); any other shortfall stays visible */
+		if (dst == ARCHIVE_EOF && archive_entry_size_is_set(e) && tot < archive_entry_size(e) && archive_entry_sparse_reset(e) > 0) {
+			la_int64_t so, sl, last = 0;
+			while (archive_entry_sparse_next(e, &so, &sl) == ARCHIVE_OK) if (sl > 0 && so + sl > last) last = so + sl;
+			if (last <= tot && archive_entry_size(e) <= (64 << 20))
+				for (; tot < archive_entry_size(e); tot++) { hsh ^= 0; hsh *= 1099511628211ULL; }
+		}
 		o += sprintf(o, " body=%lld:%016llx:%s", tot, (unsigned long long)hsh, vh_st(dst));
+		put_extras(&o, e);
 		if (keep && nrbe < MAXENT) { rbe[nrbe] = archive_entry_clone(e); rbbody[nrbe] = keepbuf; rbblen[nrbe] = keeplen; nrbe++; }
 		else free(keepbuf);
 		out[(*nout)++] = line;
@@ -311,6 +494,10 @@ static void op_close(int abort_)
 	else c = archive_write_close(wa);
 	archive_write_free(wa); wa = NULL;
 	int fmt, end;
+	/* a case may hold several archives: `rd` / `rewrite` refer to the latest */
+	for (int i = 0; i < nrb; i++) free(rb[i]);
+	for (int i = 0; i < nrbe; i++) { archive_entry_free(rbe[i]); free(rbbody[i]); }
+	nrb = nrbe = 0;
 	read_back(abort_, &fmt, &end, 1, rb, &nrb);
 	printf("c=%s len=%zu hash=%016llx", vh_st(c), sink_len, (unsigned long long)vh_fnv(sink, sink_len));
 	printf(" hex=");
@@ -350,7 +537,7 @@ static void op_rewrite(char **w, int n)
 	    fmt, nrb2, end == -99 ? "toomany" : vh_st(end));
 }
 
-static void c_begin(void) { wa = NULL; nrb = 0; nrb2 = 0; nrbe = 0; sink_len = 0; sink_fail = 0; }
+static void c_begin(void) { w_ropt[0] = 0; wa = NULL; nrb = 0; nrb2 = 0; nrbe = 0; sink_len = 0; sink_fail = 0; }
 
 static void c_op(char *line)
 {
